@@ -30,24 +30,16 @@ Fixpoint norm (s : src) : src :=
   | SCached _ inner => SCached 0 (norm inner)
   end.
 
-(* `cls top s`: with top = true, `s` may be (a ReplaceSource chain around) a
+(* `delim_cls top s`, `no_concat`, `delimited`: defined in Sem/HashEq.v (the checker of C20
+   uses `delimited`).  With top = true, `s` may be (a ReplaceSource chain around) a
    ConcatSource; with top = false it may not.  Children of a ConcatSource are
    checked with top = false; the inner source of a CachedSource with top = true. *)
-Fixpoint cls (top : bool) (s : src) : bool :=
-  match s with
-  | SConcat cs => top && forallb (cls false) cs
-  | SReplace inner _ => cls top inner
-  | SCached _ inner => cls true inner
-  | _ => true
-  end.
-Definition no_concat (s : src) : bool := cls false s.
-Definition delimited (s : src) : bool := cls true s.
 
 Lemma no_concat_delimited (s : src) : no_concat s = true -> delimited s = true.
 Proof.
   unfold no_concat, delimited.
   induction s as [b v|v|v|v n|v n m o i r|cs IH|inner rs IH|id inner IH]
-    using src_nested_ind; cbn [cls]; try (intros; reflexivity).
+    using src_nested_ind; cbn [delim_cls]; try (intros; reflexivity).
   - discriminate.
   - exact IH.
   - intros H; exact H.
@@ -202,14 +194,14 @@ Proof. destruct s; discriminate. Qed.
 
 Definition inj_at (a : src) : Prop :=
   forall top b r r',
-    cls top a = true -> cls top b = true ->
+    delim_cls top a = true -> delim_cls top b = true ->
     (top = true -> r = [] /\ r' = []) ->
     hash_events a ++ r = hash_events b ++ r' ->
     norm a = norm b /\ r = r'.
 
 Lemma concat_children_inj (ca : list src) :
   Forall inj_at ca ->
-  forall cb, forallb (cls false) ca = true -> forallb (cls false) cb = true ->
+  forall cb, forallb (delim_cls false) ca = true -> forallb (delim_cls false) cb = true ->
     flat_map hash_events ca = flat_map hash_events cb -> map norm ca = map norm cb.
 Proof.
   intros HF. induction HF as [|x ca Hx HF IH]; intros [|y cb] Ha Hb H.
@@ -271,20 +263,20 @@ Proof.
     + apply cons_inj in H. destruct H as [_ H]. apply bool_u8_inj in H. destruct H as [Hrm H].
       subst. split; reflexivity.
   - (* ConcatSource *)
-    cbn [cls] in Ca, Cb. apply andb_true_iff in Ca. apply andb_true_iff in Cb.
+    cbn [delim_cls] in Ca, Cb. apply andb_true_iff in Ca. apply andb_true_iff in Cb.
     destruct Ca as [Et Ca], Cb as [_ Cb]. destruct (Htop Et) as [Hr Hr']. subst r r'.
     split; [|reflexivity]. rewrite !app_nil_r in H.
     cbn [hash_events] in H. apply hash_str_inj in H. destruct H as [_ H].
     cbn [norm]. rewrite (concat_children_inj ca IH cb Ca Cb H). reflexivity.
   - (* ReplaceSource *)
-    cbn [cls] in Ca, Cb. cbn [hash_events] in H. rewrite <- !app_assoc in H.
+    cbn [delim_cls] in Ca, Cb. cbn [hash_events] in H. rewrite <- !app_assoc in H.
     apply hash_str_inj in H. destruct H as [_ H].
     apply hash_repls_inj in H; [|apply hash_events_head|apply hash_events_head].
     destruct H as [Hrs H].
     destruct (IH top ib r r' Ca Cb Htop H) as [Hn Hr].
     cbn [norm]. rewrite Hn, Hrs. split; [reflexivity|exact Hr].
   - (* CachedSource *)
-    cbn [cls] in Ca, Cb. cbn [hash_events app] in H. injection H as H Hr.
+    cbn [delim_cls] in Ca, Cb. cbn [hash_events app] in H. injection H as H Hr.
     assert (H' : hash_events ia ++ [] = hash_events ib ++ []) by (rewrite !app_nil_r; exact H).
     destruct (IH true ib [] [] Ca Cb (fun _ => conj eq_refl eq_refl) H') as [Hn _].
     cbn [norm]. rewrite Hn. split; [reflexivity|exact Hr].
